@@ -44,6 +44,8 @@ SHAPES = {
     'subsuper': dict(classes={'P': ['Id'], 'X': ['Id'], 'Y': ['Id']},
                      assocs=[(4, 'X', ['Id'], False, True, '', 'P', ['Id'], False, False, ''),
                              (4, 'Y', ['Id'], False, True, '', 'P', ['Id'], False, False, '')]),
+    'comp_key': dict(classes={'A': ['Id', 'Code'], 'B': ['Id', 'A_Id', 'A_Code']},
+                     assocs=[(8, 'B', ['A_Id', 'A_Code'], True, True, '', 'A', ['Id', 'Code'], False, True, '')]),
     'two_rels': dict(classes={'A': ['Id'], 'B': ['Id', 'A_Id', 'A2_Id']},
                      assocs=[(5, 'B', ['A_Id'], True, True, '', 'A', ['Id'], False, True, ''),
                              (6, 'B', ['A2_Id'], False, True, '', 'A', ['Id'], False, True, '')]),
